@@ -51,6 +51,13 @@ func RunD1(run *vh.Run) {
 			guard(label, func() { runPredict(run, label, i, nPred, stats) })
 		}
 	}
+	for i := 0; i < run.N(2, 10); i++ {
+		i := i
+		label := fmt.Sprintf("backend-heights-%d", i)
+		if run.WantCase(label) {
+			guard(label, func() { runBackendHeights(run, label, i) })
+		}
+	}
 	wg.Wait()
 
 	if stats.n > 0 {
@@ -76,6 +83,7 @@ func RunD1(run *vh.Run) {
 		run.Floor("predictions compared", run.Get("predictions_compared"), int64(run.N(100, 2500)))
 		run.Floor("gas-dependent predictions", run.Get("predictions_gas_dependent"), int64(run.N(25, 600)))
 		run.Floor("predicted first delegations through funded staking puppets (with logs)", run.Get("predictions_of_staking_delegations_with_logs"), int64(run.N(8, 150)))
+		run.Floor("eth_call through the JSON-RPC backend at recorded heights whose answer differs from the head state", run.Get("backend_eth_calls_whose_answer_differs_from_the_head_state"), int64(run.N(10, 100)))
 		run.Floor("estimates delivered", run.Get("estimates_delivered"), int64(run.N(40, 1000)))
 		run.Floor("prediction outcome classes", int64(run.DistinctN("prediction_outcome")), 4)
 	}
